@@ -349,10 +349,11 @@ impl FileSpec {
                 } else {
                     new_path.to_string_lossy().to_string()
                 };
-                let index = file_stem_string.find(".restart-").unwrap(/*ok*/);
-                // (unrelated files can have something else than a number behind ".restart-")
+                // (unrelated files can have something else than a number behind ".restart-",
+                // and with a suffix like "restart-1" it is not found in the stem at all)
                 file_stem_string
-                    .get((index + 9)..(index + 13))
+                    .find(".restart-")
+                    .and_then(|index| file_stem_string.get((index + 9)..(index + 13)))
                     .and_then(|s| s.parse::<usize>().ok())
                     .map_or(0, |n| n + 1)
             };
